@@ -57,7 +57,8 @@ SPEC = dict(
          "raise XSerializationException; (trunc) every prefix of a ladder around every 8192-byte block boundary must be rejected with a documented exception (or be "
          "loss-free: only zero padding removed) - the cut is moved through the structure by a pad sweep; (ladder) the same pools padded by L = 0..N-1 characters in "
          "the namespace URI / one long value / L extra enumeration values / a long annotation so that the data crosses block boundaries at every even offset, full "
-         "round-trip oracles; (locked) pools serialised after lockPool(). Non-trivial = distinct original pool dumps + rejected mutated streams.",
+         "round-trip oracles; (long values) one entity / enumeration value longer than a block (4090..8300 characters; quick: +-40 around the length at which it ends "
+         "exactly on a block boundary) on a DTD pool and an annotation-free schema pool; (locked) pools serialised after lockPool(). Non-trivial = distinct original pool dumps + rejected mutated streams.",
     trusted_base=["clang 14 ASan+UBSan (-fno-sanitize-recover=undefined)", "metamorphic oracle: the original pool A is the reference for B and C (no external model)"],
     assumptions=[
         "oracle (3) narrowed: raw byte equality of ser(B) and ser(A) does not hold on the unchanged tree for a benign reason - element-declaration ids "
@@ -73,6 +74,9 @@ SPEC = dict(
         "attribute values of list type with a PSVI handler (heap overflow in ListDatatypeValidator::getCanonicalRepresentation), prohibited attributes present with a PSVI "
         "handler (null PSVIAttribute in IGXMLScanner::buildAttList: those pools are validated without PSVI), generateSyntheticAnnotations (bad downcast in "
         "TraverseSchema::generateSyntheticAnnotation) - see docs/c16.md",
+        "stream layout of annotated schema pools depends on heap addresses (annotation table written in pointer-hash order): the general ladder keeps every string "
+        "shorter than one block; strings longer than a block are swept only on pools with address-independent layout",
+        "errors reported at the same (severity, line, column) are compared as a set (hash-order of attribute definitions)",
         "after a rejected stream the same pool object usually refuses a second deserializeGrammars ('string pool is not empty'): documented as the client's responsibility, counted only",
     ],
     coverage=_cov,
